@@ -141,8 +141,12 @@ where
         self.cap = new_sz;
         let old = mem::replace(&mut self.tbl, vec![HashTableElement::default(); new_sz]);
         let c = self.cap;
-        for i in old.iter() {
-            propagate(&mut self.tbl, self.cap, i.clone(), (i.hash as usize) % c);
+        // only occupied slots hold elements; each is re-inserted from its home
+        // position, so its probe length starts again at 0
+        for i in old.iter().filter(|x| x.is_occupied()) {
+            let mut itm = i.clone();
+            itm.psl = 0;
+            propagate(&mut self.tbl, self.cap, itm, (i.hash as usize) % c);
         }
     }
 
